@@ -838,6 +838,7 @@ def run(ctx):
     from . import C03
 
     imported(ctx, C03.rule_I3)
+    imported(ctx, C07.rule_Q1)  # a caller that is handed the tree's own lists edits the tree behind the refresh discipline's back
     # the incrementally maintained vectors come out of the memoised recursion: a cache that returns another
     # child multiset's result, or whose value was written through, differs from a from-scratch rebuild
     from . import _premises
